@@ -28,6 +28,7 @@ ENVS = [
     {'x1': 'a', 'x2': 'b', 'x3': 'a', 'x4': 2, 'x5': 'bc'},
     {'x1': True, 'x2': 1, 'x3': False, 'x4': 0, 'x5': 4},
     {'x1': 'aB', 'x2': 'Ab', 'x3': 1, 'x4': True, 'x5': 'a'},
+    {'x1': 'a  b', 'x2': 'a b', 'x3': 'a\tb', 'x4': ' a ', 'x5': 2},
 ]
 
 
